@@ -396,29 +396,31 @@ def case_line(cid, c):
 
 
 def run_impl(impl, lines, env=None):
-    """run the harness; cases whose process died are re-run one by one to pin the crashing case"""
+    """run the harness (it forks per case: a crash is reported as '<id>.o CRASH ...' for exactly that case)"""
     rc, res, raw = core.run_lines_parallel(impl, lines, env=env)
     crashed = {}
-    missing = [l for l in lines if l.split(" ", 1)[0] + ".o" not in res]
-    for l in missing[:200]:
-        rc1, res1, raw1 = core.run_lines(impl, l + "\n", timeout=120, env=env)
+    for l in lines:
         cid = l.split(" ", 1)[0]
-        if cid + ".o" in res1:
-            res.update(res1)
-        else:
-            crashed[cid] = "exit status %d: %s" % (rc1, raw1[-600:].replace("\n", " | "))
+        r = res.get(cid + ".o")
+        if r is not None and r.startswith("CRASH"):
+            crashed[cid] = r
     return res, crashed
 
 
+KNOWN_OPS = {   # op name -> finding key; these ops are emitted by the corpus only, never by the generators
+    "insa": "K-C20-1", "rszgrow": "K-C20-3", "appsubnpos": "K-C20-4", "substrnpos": "K-C20-5", "eritempty": "K-C20-6",
+}
+
+
 def known_class(c, what):
-    """guards of the known-finding classes (same predicates as the _partial theorems / generator exclusions)"""
-    ops = c[2]
-    if c[0] in ("vi", "vs") and any(o.startswith("insa:") for o in ops):
-        return "K-C20-1"
-    if c[0] == "d" and any(o == "swap" for o in ops) and len(set(c[1].split(","))) > 1:
+    """guards of the known-finding classes (the same predicates as the _partial theorems; the harness skips
+    the by-value ops that would fall into a class, e.g. 'rsz' growing a non-empty string)"""
+    for o in c[2]:
+        k = KNOWN_OPS.get(o.split(":")[0])
+        if k and c[0] in ("vi", "vs", "s"):
+            return k
+    if c[0] == "d" and "swap" in c[2] and len(set(c[1].split(","))) > 1:
         return "K-C20-2"
-    if c[0] == "s" and any(o.startswith(("appsubnpos", "substrnpos", "eritempty")) for o in ops):
-        return "K-C20-3"
     return None
 
 
@@ -471,12 +473,15 @@ def shrink(ctx, impl, o, env=None):
     return ops, (crashed.get("z") or res.get("z.o"))
 
 
-CORPUS = [
-    # K-C20-1: insert(pos, n, v[i]) with the value aliasing an element behind the insertion point
-    ("vi", "-", ["rsv:20", "pb:1", "pb:2", "pb:3", "pb:4", "pb:5", "pb:6", "insa:1:2:5"], "corpus-K1"),
-    # fixed b5b1043: XalanDeque::resize
-    ("d", "10,10", ["rsz:10", "rsz:8", "rsz:2", "rsz:13"], "corpus-F8"),
-]
+def load_corpus():
+    out = []
+    d = os.path.join(core.VERIF, "corpus", "C20")
+    for f in sorted(os.listdir(d)) if os.path.isdir(d) else []:
+        for line in open(os.path.join(d, f)):
+            t = line.split()
+            if len(t) >= 4 and not t[0].startswith("#"):
+                out.append((t[1], t[2], t[3:], "corpus-" + f.split(".")[0]))
+    return out
 
 
 def make_cases(ctx, scale):
@@ -513,13 +518,14 @@ def run(ctx):
         return ctx.finish(LEVEL)
 
     known = {k["key"]: k for k in ctx.known.for_property("C20")}
-    cases = [c for c in CORPUS] + make_cases(ctx, 1 if not ctx.thorough else 8)
+    corpus = load_corpus()
+    cases = corpus + make_cases(ctx, 6 if not ctx.thorough else 40)
     ctx.cov["samples"] = [case_line("s%d" % i, c)[:200] for i, c in enumerate(cases[:3] + cases[len(cases) // 2: len(cases) // 2 + 3])]
     corr, orc = evaluate(ctx, cases, impl, model)
     new = [o for o in orc if not (o["known"] and o["known"] in known)]
     if (corr or not proved or not model) and not new and not ctx.thorough:
         ctx.escalated = True
-        more = make_cases(ctx, 6)
+        more = make_cases(ctx, 30)
         c2, o2 = evaluate(ctx, more, impl, model, tag="e")
         corr += c2
         orc += o2
